@@ -12,16 +12,25 @@
 (*                  (raw columns and columns created later accept all);    *)
 (*                  an accepted row reads back exactly                     *)
 (*   clear          every column back to raw, statistics forgotten         *)
+(*   clone / clone_from   the copy IS the source (columns, codes,          *)
+(*                  statistics, rows) and continues like it                *)
+(* The object under test is the bare region or a FlatStack over it (copy / *)
+(* get / merge_capacity / clear / clone / clone_from).  Rejections carry   *)
+(* whether the slot had been cleared or copied (C08 / C09 act on those).   *)
 (***************************************************************************)
 EXTENDS Naturals, Sequences, FiniteSets, TLC, Json, IOUtils
 
 Rec == ndJsonDeserialize(IOEnv.TRACE)
 
-VARIABLES l, slots, skip, errs
-vars == <<l, slots, skip, errs>>
+VARIABLES l, slots, skip, errs, cleared, copied
+vars == <<l, slots, skip, errs, cleared, copied>>
 
-Err(e, why) == IF PrintT(<<"ERR", ToJson([line |-> l, run |-> e.run, why |-> why])>>) THEN errs + 1 ELSE errs
-Init == l = 1 /\ slots = <<>> /\ skip = FALSE /\ errs = 0
+SlotOf(e) == IF "s" \in DOMAIN e /\ e.ev # "cols_copy" THEN e.s ELSE IF "d" \in DOMAIN e THEN e.d ELSE 0
+Err(e, why) == IF PrintT(<<"ERR", ToJson([line |-> l, run |-> e.run, why |-> why, afterclear |-> SlotOf(e) \in cleared,
+                                          copied |-> SlotOf(e) \in copied])>>) THEN errs + 1 ELSE errs
+RECURSIVE ErrAll(_, _, _)
+ErrAll(e, whys, acc) == IF whys = <<>> THEN acc ELSE ErrAll(e, Tail(whys), Err(e, Head(whys)) - errs + acc)
+Init == l = 1 /\ slots = <<>> /\ skip = FALSE /\ errs = 0 /\ cleared = {} /\ copied = {}
 
 RawCol == [coded |-> FALSE, dom |-> {}, stats |-> {}]
 Fresh == [cols |-> <<>>, dead |-> FALSE]
@@ -51,18 +60,21 @@ Step(e) ==
     [] e.ev = "cols_push" ->
          LET sl == slots[e.s]
              ok == RowEncodable(sl, e.v)
-             why == IF e.panic /\ ok THEN "push-into-merged-panicked"
-                    ELSE IF ~e.panic /\ ~ok THEN "symbol-outside-statistics-was-stored"
-                    ELSE IF ~e.panic /\ e.read_err # "" THEN "read-failed"
-                    ELSE IF ~e.panic /\ e.read # e.v THEN "read-differs"
-                    ELSE IF ~e.panic /\ ~e.stable THEN "earlier-row-changed"
-                    ELSE "ok"
-         IN  IF why # "ok" THEN errs' = Err(e, why) /\ skip' = TRUE /\ UNCHANGED slots
+             \* every failing check is reported
+             whys == IF e.panic THEN (IF ok THEN <<"push-into-merged-panicked">> ELSE <<>>)
+                     ELSE (IF ~ok THEN <<"symbol-outside-statistics-was-stored">> ELSE <<>>) \o
+                          (IF e.read_err # "" THEN <<"read-failed">> ELSE IF e.read # e.v THEN <<"read-differs">> ELSE <<>>) \o
+                          (IF ~e.stable THEN <<"earlier-row-changed">> ELSE <<>>)
+         IN  IF whys # <<>> THEN errs' = ErrAll(e, whys, errs) /\ skip' = TRUE /\ UNCHANGED slots
              ELSE IF e.panic THEN slots' = [slots EXCEPT ![e.s].dead = TRUE] /\ UNCHANGED <<skip, errs>>
              ELSE slots' = [slots EXCEPT ![e.s] = Pushed(sl, e.v)] /\ UNCHANGED <<skip, errs>>
     [] e.ev = "cols_merge" ->
          IF e.panic THEN errs' = Err(e, "merge-panicked") /\ skip' = TRUE /\ UNCHANGED slots
          ELSE slots' = [slots EXCEPT ![e.d] = Merged([i \in 1..Len(e.srcs) |-> slots[e.srcs[i]]])] /\ UNCHANGED <<skip, errs>>
+    [] e.ev = "cols_copy" ->
+         IF e.panic THEN errs' = Err(e, "copy-panicked") /\ skip' = TRUE /\ UNCHANGED slots
+         ELSE IF ~e.same THEN errs' = Err(e, "copy-reads-differently") /\ skip' = TRUE /\ UNCHANGED slots
+         ELSE slots' = [slots EXCEPT ![e.d] = slots[e.s]] /\ UNCHANGED <<skip, errs>>
     [] e.ev = "cols_clear" ->
          IF e.panic THEN errs' = Err(e, "clear-panicked") /\ skip' = TRUE /\ UNCHANGED slots
          ELSE slots' = [slots EXCEPT ![e.s].cols = [j \in 1..Len(@) |-> RawCol]] /\ UNCHANGED <<skip, errs>>
@@ -70,6 +82,14 @@ Step(e) ==
 Next == /\ l <= Len(Rec)
         /\ l' = l + 1
         /\ Step(Rec[l])
+        /\ cleared' = IF Rec[l].ev = "reset" THEN {}
+                      ELSE IF Rec[l].ev = "cols_clear" THEN cleared \cup {Rec[l].s}
+                      ELSE IF Rec[l].ev \in {"cols_merge", "cols_copy"} THEN cleared \ {Rec[l].d}
+                      ELSE cleared
+        /\ copied' = IF Rec[l].ev = "reset" THEN {}
+                     ELSE IF Rec[l].ev = "cols_copy" THEN copied \cup {Rec[l].d}
+                     ELSE IF Rec[l].ev = "cols_merge" THEN copied \ {Rec[l].d}
+                     ELSE copied
         /\ (l = Len(Rec)) => PrintT(<<"DONE", l, errs'>>)
 Spec == Init /\ [][Next]_vars
 
